@@ -30,7 +30,7 @@ ASSUMPTIONS = ["round 1 may normalise arbitrarily (or reject the interface: coun
 
 
 def streams(ctx):
-    return [("wide", ctx.scale(220, 4000)), ("legal", ctx.scale(120, 2500))]
+    return [("wide", ctx.scale(220, 4000)), ("legal", ctx.scale(120, 2500)), ("announced", ctx.scale(150, 2500))]
 
 
 def gen_case(ctx, stream, idx):
@@ -40,6 +40,18 @@ def gen_case(ctx, stream, idx):
         ir = irgen.rand_ir(r, nparams=r.randint(0, 5), suffix_defaults=r.random() < 0.5,
                            default_kinds=tuple(k for k in irgen.DEFAULT_KINDS if k not in ("code", "strdot")),
                            doc_kinds=("plain", "trigger", "trigger", "multiline", "stop"), with_return=r.random() < 0.5)
+    elif stream == "announced":
+        # hand-written descriptions that announce their default in prose (any spelling) and carry no default key yet:
+        # round 1 extracts the default, rounds 2..4 must not re-announce it
+        ir = irgen.rand_ir(r, nparams=r.randint(1, 4), type_kinds=("int", "float", "str", "bool"), default_kinds=("absent",),
+                           doc_kinds=("plain",), with_return=False)
+        for p in ir["params"].values():
+            if r.random() < 0.7:
+                v = {"int": r.choice(("32", "7", "-4")), "float": r.choice(("0.5", "2.0")), "str": r.choice(("mnist", "a_b")),
+                     "bool": r.choice(("True", "False"))}[p["typ"]]
+                p["doc"] = p["doc"].rstrip(".") + r.choice((", defaults to %s", ". Defaults to %s", " (defaults to %s)",
+                                                             ", defaults to %s. Must be set early", ". Default value is %s",
+                                                             " (Defaults to %s)")) % v
     else:
         ir = irgen.rand_ir(r, nparams=r.randint(1, 5), type_kinds=("int", "float", "str", "bool", "optional", "literal",
                                                                     "list", "union"),
